@@ -215,7 +215,7 @@ def st_add():
     )
     # history: how the stamp came to be (constructor / decoded / from_datetime-style route), whether its views were read before
     # the addition (a lazily cached view must not survive it), and an optional second addition chained onto the result
-    hist = st.fixed_dictionaries({"route": st.sampled_from(["ctor", "unpack", "read_from_raw", "from_unix_days", "from_datetime", "read_into_from_datetime"]), "views_before": st.booleans(), "then": st.one_of(st.none(), td)})
+    hist = st.fixed_dictionaries({"route": st.sampled_from(["ctor", "unpack", "read_from_raw", "from_unix_days", "from_datetime", "read_into_from_datetime", "from_datetime_sub_ms", "from_datetime_sub_ms"]), "views_before": st.booleans(), "then": st.one_of(st.none(), td)})
     return st.tuples(st.one_of(gen, gen, midnight, limit), hist).map(lambda t: {**t[0], **t[1]})
 
 
@@ -240,9 +240,22 @@ def check_add(c):
     elif route == "read_into_from_datetime":
         s = cds.CdsShortTimestamp.from_datetime(exact_dt(12345, 6789))
         s.read_from_raw(raw)
+    elif route == "from_datetime_sub_ms" and (c["days"], c["ms"]) != (65535, MS_DAY - 1):
+        # built from a datetime that is not a whole millisecond: the stamp holds some (days, ms) - the floor, or one more - and from
+        # then on it is that pair; what lay below the millisecond takes no part in later sums
+        sub = (c["ms"] * 7 + c["days"] + c["td"]["us"]) % 999 + 1
+        s = cds.CdsShortTimestamp.from_datetime(exact_dt(c["days"], c["ms"]) + dt.timedelta(microseconds=sub))
+        base = s.ccsds_days * MS_DAY + s.ms_of_day
+        true(devs, "add.sub_ms_base", base - (c["days"] * MS_DAY + c["ms"]) in (0, 1), f"from_datetime of ({c['days']},{c['ms']}) + {sub} us gave ({s.ccsds_days},{s.ms_of_day})")
+        if devs:
+            return devs
+        total = base + td_ms
+        wd, wm = total // MS_DAY, total % MS_DAY
     else:
         s = cds.CdsShortTimestamp(c["days"], c["ms"])
-    if c.get("views_before") or route in ("from_datetime", "read_into_from_datetime") or (c["days"] + c["ms"]) % 2 == 0:
+    if route == "from_datetime_sub_ms":
+        s.as_unix_seconds(), s.as_datetime()  # read, not judged: the views of such a stamp may carry the sub-millisecond part
+    elif c.get("views_before") or route in ("from_datetime", "read_into_from_datetime") or (c["days"] + c["ms"]) % 2 == 0:
         # (also decided by the parity of the value: a drawn boolean alone is under-sampled on its True side)
         check_views(devs, s, c["days"], c["ms"], f"add.views_before.{route}")
     if wd > 65535:
@@ -425,6 +438,10 @@ from ..names_check import names_clause  # noqa: E402
 
 if names_clause("C14") is not None:
     CLAUSES.append(names_clause("C14"))
+
+from ..envcheck import env_clauses  # noqa: E402
+
+CLAUSES.extend(env_clauses("C14", ("fields",), n_quick=2, n_thorough=30))
 
 PROPERTY = Property(
     id="C14",
